@@ -194,11 +194,11 @@ def tokActs (s : St) (tok : String) : Option (List Act) :=
         match pc with
         | .idle => some []
         | .wrote _ true => some [.ret w]
-        | .wrote _ false => if s.closing then some [.ret w, .close w] else some [.ret w, .close w, .closeFinish w]
-        | .closer _ => some [.closeFinish w]
+        | .wrote _ false => if s.closing then some [.ret w, .close w] else some [.ret w, .close w, .cancelCtx w, .closeFinish w]
+        | .closer _ => some [.cancelCtx w, .closeFinish w]
         | .cancelled => some [.ret w]
-        | .waiting => if s.closed then some [.quit w, .ret w, .close w] else some [.cancel w, .ret w]
-        | .queued => some [.quit w, .ret w, .close w]
+        | .waiting => if s.quit then some [.quit w, .ret w, .close w] else some [.cancel w, .ret w]
+        | .queued => some ((if s.gone then [] else [.flusherQuit]) ++ [.quit w, .ret w, .close w])
         | _ => none
     | _ => none
   else if tok.startsWith "s" || tok.startsWith "h" then rest1.toNat?.map fun w => [.submit w]
@@ -243,6 +243,177 @@ def sched (coal wt : Bool) (toks : List String) : String :=
     "ok closed=" ++ (if ss.s.closed then "1" else "0") ++ " armed=" ++ (if wt then "1" else "0") ++
       " wire=" ++ showWire ss.s.wire
 
+
+/-! ### `wtrace` / `wsched` (writer-level scheduling tier): the two writers without a Conn; the scheduler also decides when
+    `quit` closes (`Q` = `c.cancel()`) and when the socket closes (`X` = `c.close()`), in every order with the enqueues,
+    timer ticks, pieces and Write results. -/
+
+inductive WEv where
+  | start (id len : Nat)             -- caller `id` calls writeContext with a frame of `len` bytes
+  | entered (id : Nat)               -- the Write of its frame entered the transport
+  | piece (id len off n : Nat)
+  | endw (id : Nat) (ok : Bool)
+  | tick                             -- the flusher took a timer tick (a new batch)
+  | quitClosed                       -- `Q`
+  | sockClosed                       -- `X`
+  | gone                             -- the flusher goroutine returned
+  | ret (id n : Nat) (cls : String)  -- writeContext returned (n, err): ok | cancel (ctx error) | quit (io.EOF / ErrConnectionClosed) | err
+  | fin                              -- end of the scenario: quit and socket closed, every held Write ended
+  | stillWaiting (id : Nat)          -- at quiescence after `Q`: the caller is still parked in writeContext's first select
+
+def parseWEv (s : String) : Option WEv :=
+  if s == "t" then some .tick
+  else if s == "Q" then some .quitClosed
+  else if s == "X" then some .sockClosed
+  else if s == "g" then some .gone
+  else if s == "z" then some .fin
+  else
+    let body := (s.drop 1).toString
+    match s.front with
+    | 's' => match nums body with
+      | some [a, b] => some (.start a b)
+      | _ => none
+    | 'a' => body.toNat?.map .entered
+    | 'W' => body.toNat?.map .stillWaiting
+    | 'p' => match nums body with
+      | some [a, b, c, d] => some (.piece a b c d)
+      | _ => none
+    | 'e' => match body.splitOn ":" with
+      | [a, b] => (a.toNat?).map fun id => .endw id (b == "ok")
+      | _ => none
+    | 'r' => match body.splitOn ":" with
+      | [a, b, c] => match a.toNat?, b.toNat? with
+        | some id, some n => some (.ret id n c)
+        | _, _ => none
+      | _ => none
+    | _ => none
+
+structure WSt where
+  m : MSt := {}
+  started : List Nat := []
+  qseen : Bool := false
+  torn : Bool := false        -- some Write has ended with a proper, non-empty prefix of its frame on the wire
+  next : Bool := false        -- since then the writer "took the next one" (the excluded condition of known finding KF-C07-1)
+
+def WSt.reject (w : WSt) (why : String) : WSt := { w with m := w.m.reject why }
+
+def sentOf (m : MSt) (id : Nat) : Nat :=
+  match m.cs.find? (·.id == id) with
+  | some c => c.n
+  | none => 0
+
+/-- the monitor of the writer-level tier. Byte stream: `mstep` (i.e. `Writer.scanFrom`; write-after-close, bytes-after-return).
+    `write-after-torn` is `C07_nothing_after_torn_partial`: once a Write has ended with a torn frame, the coalescer puts
+    further bytes on the wire only through a timer tick (known finding KF-C07-1, tolerated) — never through its shutdown leg;
+    for the direct writer every Write is an acquisition of the semaphore (KF-C07-1, tolerated).
+    Outcomes: `C07_outcome_final` (exactly one), `C07_success_means_whole`, `C07_cancel_before_start_no_bytes`,
+    `C07_quit_outcome_means_quit` / `C07_quit_disposition` (a `quit` outcome needs a closed quit channel and leaves no byte),
+    `C07_outcome_counts_sent` (n = the bytes of the frame on the wire), `C07_no_writer_left_behind` (at the end everybody
+    has an outcome), `C07_waiting_sees_quit` (with quit closed, a caller parked in writeContext's first select can leave:
+    at quiescence none is parked there). -/
+def wstep (coal : Bool) (lens : Nat → Nat) (w : WSt) : WEv → WSt
+  | .start id _ => if w.started.contains id then w.reject "started-twice" else { w with started := id :: w.started }
+  | .entered id =>
+    if !(w.started.contains id) then w.reject "unframed-write"
+    else if w.torn && !w.next && coal then w.reject "write-after-torn"
+    else if w.torn && !coal then { w with next := true }
+    else w
+  | .piece id len off n => { w with m := mstep lens w.m (.piece id len off n) }
+  | .endw id ok =>
+    let w := { w with m := mstep lens w.m (.endw id ok) }
+    let k := sentOf w.m id
+    if !ok && 0 < k && k < lens id then { w with torn := true, next := false } else w
+  | .tick => if coal then { w with next := true } else w.reject "tick-without-flusher"
+  | .quitClosed => { w with qseen := true }
+  | .sockClosed => { w with m := mstep lens w.m .sockClosed }
+  | .gone => if w.qseen then w else w.reject "flusher-left-before-quit"
+  | .ret id n cls =>
+    if !(w.started.contains id) then w.reject "outcome-of-nobody"
+    else if w.m.returned.contains id then w.reject "two-outcomes"
+    else
+      let k := sentOf w.m id
+      let w := { w with m := { w.m with returned := id :: w.m.returned } }
+      if cls == "ok" then (if n == lens id && k == lens id then w else w.reject "success-without-whole-frame")
+      else if cls == "cancel" then (if n == 0 && k == 0 then w else w.reject "cancelled-left-bytes")
+      else if cls == "quit" then
+        (if !w.qseen then w.reject "closed-outcome-before-quit" else if n == 0 && k == 0 then w else w.reject "quit-left-bytes")
+      else if cls == "err" then (if n == k then w else w.reject "count-mismatch")
+      else w.reject "crash"
+  | .fin => if w.started.all fun id => w.m.returned.contains id then w else w.reject "no-outcome"
+  | .stillWaiting _ => w.reject "waiting-after-quit"
+
+def lensOfWEvs (evs : List WEv) : List (Nat × Nat) :=
+  evs.filterMap fun
+    | .start id len => some (id, len)
+    | _ => none
+
+def wmonitor (coal : Bool) (bytes frames rest : Nat) (evs : List WEv) : String :=
+  let lens := lookupLen (lensOfWEvs evs)
+  let w := evs.foldl (wstep coal lens) {}
+  match w.m.verdict with
+  | some v => v
+  | none => if decoderAgrees lens w.m bytes frames rest then "accept" else "reject:decoder-disagrees"
+
+/-- the actions one token of a `wsched` line stands for -/
+def wtokActs (lens : Nat → Nat) (s : St) (tok : String) : Option (List Act) :=
+  let rest1 := (tok.drop 1).toString
+  let rest2 := (tok.drop 2).toString
+  if tok == "t" then some [.tick]
+  else if tok == "Q" then some [.shutQuit]
+  else if tok == "X" then some [.shutdown]
+  else if tok == "+g" then some [.flusherQuit]
+  else if tok.startsWith "+q" then rest2.toNat?.map fun w => [.enqueue w]
+  else if tok.startsWith "+a" then
+    match nums rest2 with
+    | some [w, l] => if l == lens w then some [.enter w] else none
+    | _ => none
+  else if tok.startsWith "+r" then
+    match rest2.splitOn ":" with
+    | [a, b, cls] =>
+      match a.toNat?, b.toNat? with
+      | some w, some n =>
+        match s.pc w, cls with
+        | .wrote k true, "ok" => if k == n then some [.ret w] else none
+        | .wrote k false, "err" => if k == n then some [.ret w] else none
+        | .waiting, "cancel" => if n == 0 then some [.cancel w, .ret w] else none
+        | .waiting, "quit" => if n == 0 then some [.quit w, .ret w] else none
+        | .queued, "quit" => if n == 0 then some [.quit w, .ret w] else none
+        | _, _ => none
+      | _, _ => none
+    | _ => none
+  else if tok.startsWith "s" then rest1.toNat?.map fun w => [.submit w]
+  else if tok.startsWith "c" then rest1.toNat?.map fun _ => []
+  else if tok.startsWith "p" then
+    match nums rest1 with
+    | some [w, k] => some [.piece w k]
+    | _ => none
+  else if tok.startsWith "e" then
+    match rest1.splitOn ":" with
+    | [a, k] => a.toNat?.map fun w => [.endWrite w (k == "ok")]
+    | _ => none
+  else none
+
+def wschedStep (cfg : Cfg) (ss : SSt) (tok : String) : SSt :=
+  match ss.stuck with
+  | some _ => ss
+  | none =>
+    match wtokActs cfg.lens ss.s tok with
+    | some as => acts cfg ss tok as
+    | none => { ss with stuck := some tok }
+
+def b01 (b : Bool) : String := if b then "1" else "0"
+
+def wsched (coal : Bool) (zs : String) (toks : List String) : String :=
+  match parseList String.toNat? ((zs.drop 2).toString.replace "," ";") with
+  | none => "bad-op"
+  | some ls =>
+    let cfg : Cfg := { lens := fun w => if w == 0 then 0 else ls.getD (w - 1) 0, coalesce := coal }
+    let ss := toks.foldl (wschedStep cfg) {}
+    match ss.stuck with
+    | some t => "stuck@" ++ t
+    | none =>
+      "ok quit=" ++ b01 ss.s.quit ++ " gone=" ++ b01 ss.s.gone ++ " closed=" ++ b01 ss.s.closed ++ " wire=" ++ showWire ss.s.wire
+
 def step (_ : Unit) (ws : List String) : Unit × String :=
   ((), match ws with
   | "attr" :: lim :: ls => match lim.toNat?, ls.mapM String.toNat? with
@@ -257,6 +428,11 @@ def step (_ : Unit) (ws : List String) : Unit × String :=
       | some b, some f, some r, some evs => monitor2 b f r evs
       | _, _, _, _ => "bad-op"
   | "sched" :: _ :: w :: t :: _ :: "|" :: toks => sched (w == "w=c") (t == "t=1") toks
+  | "wsched" :: w :: _ :: z :: "|" :: toks => wsched (w == "w=c") z toks
+  | "wtrace" :: b :: f :: r :: evs :: "|" :: w :: _ =>
+      match kv "bytes" b, kv "frames" f, kv "rest" r, parseList parseWEv evs with
+      | some b, some f, some r, some evs => wmonitor (w == "w=c") b f r evs
+      | _, _, _, _ => "bad-op"
   | ["kf-d13"] =>
       match run { lens := fun _ => 10, coalesce := false } Writer.init C07.cexScheduleD with
       | some s => if onlyLastTorn (fun _ => 10) (glue s.wire) then "clean" else "torn-then-complete"
